@@ -54,6 +54,127 @@ func canonical() []*scenario {
 			{K: kAlloc, C: 0, Size: 6 * P}, {K: kAlloc, C: 0, Size: 1}, {K: kInitPID, C: 1, From: 0},
 			{K: kAlloc, C: 1, Size: 2*P + 1}, {K: kSelect, C: 1, Dev: 4}, {K: kAlloc, C: 1, Size: 4 * P},
 			{K: kFree, C: 0, Buf: 1}, {K: kAlloc, C: 0, Size: P}}},
+		// ---- every operation x device kind x page count around multiples of
+		// the member count (k) of a unified device
+		{Name: "canon-remap-onto-unified-k2", Log2Page: 12, GPUPages: []int{64, 64, 64}, Ops: []op{
+			{K: kInit, C: 0}, {K: kUnify, C: 0, Devs: []int{2, 3}}, // device 4, k=2
+			{K: kAlloc, C: 0, Size: P}, {K: kAlloc, C: 0, Size: 2 * P}, {K: kAlloc, C: 0, Size: 3 * P}, {K: kAlloc, C: 0, Size: 5*P - 1},
+			{K: kAlloc, C: 0, Size: 4 * P}, {K: kAlloc, C: 0, Size: 9 * P},
+			{K: kRemap, C: 0, Buf: 0, Off: 0, Size: P, Dev: 4},       // 1 = k-1
+			{K: kRemap, C: 0, Buf: 1, Off: 0, Size: 2 * P, Dev: 4},   // k
+			{K: kRemap, C: 0, Buf: 2, Off: 0, Size: 3 * P, Dev: 4},   // k+1
+			{K: kRemap, C: 0, Buf: 3, Off: 0, Size: 5 * P, Dev: 4},   // 2k+1
+			{K: kRemap, C: 0, Buf: 4, Off: 0, Size: 4 * P, Dev: 4},   // 2k
+			{K: kRemap, C: 0, Buf: 5, Off: 1, Size: 7*P - 5, Dev: 4}, // 3k+1 in the middle of a buffer, ragged size
+			{K: kSelect, C: 0, Dev: 4}, {K: kAlloc, C: 0, Size: 3 * P}, {K: kAlloc, C: 0, Size: 1},
+			{K: kFree, C: 0, Buf: 3}, {K: kFree, C: 0, Buf: 0}, {K: kFree, C: 0, Buf: 5}, {K: kFree, C: 0, Buf: 2},
+			{K: kFree, C: 0, Buf: 1}, {K: kFree, C: 0, Buf: 4}, {K: kFree, C: 0, Buf: 6}, {K: kFree, C: 0, Buf: 7},
+			{K: kAlloc, C: 0, Size: 2 * P}}},
+		{Name: "canon-remap-onto-unified-k3", Log2Page: 12, GPUPages: []int{64, 64, 64}, Ops: []op{
+			{K: kInit, C: 0}, {K: kUnify, C: 0, Devs: []int{1, 2, 3}}, // device 4, k=3
+			{K: kAlloc, C: 0, Size: 6 * P}, {K: kAlloc, C: 0, Size: 3 * P}, {K: kAlloc, C: 0, Size: 5 * P}, {K: kAlloc, C: 0, Size: 2 * P},
+			{K: kAlloc, C: 0, Size: 7 * P}, {K: kAlloc, C: 0, Size: P}, {K: kAlloc, C: 0, Size: 4 * P}, {K: kAlloc, C: 0, Size: 10 * P},
+			{K: kRemap, C: 0, Buf: 0, Off: 0, Size: 6 * P, Dev: 4}, {K: kRemap, C: 0, Buf: 1, Off: 0, Size: 3 * P, Dev: 4},
+			{K: kRemap, C: 0, Buf: 2, Off: 0, Size: 5 * P, Dev: 4}, {K: kRemap, C: 0, Buf: 3, Off: 0, Size: 2 * P, Dev: 4},
+			{K: kRemap, C: 0, Buf: 4, Off: 0, Size: 7 * P, Dev: 4}, {K: kRemap, C: 0, Buf: 5, Off: 0, Size: 1, Dev: 4},
+			{K: kRemap, C: 0, Buf: 6, Off: 0, Size: 4 * P, Dev: 4}, {K: kRemap, C: 0, Buf: 7, Off: 0, Size: 10 * P, Dev: 4},
+			{K: kSelect, C: 0, Dev: 4}, {K: kAlloc, C: 0, Size: 4 * P},
+			{K: kFree, C: 0, Buf: 0}, {K: kFree, C: 0, Buf: 1}, {K: kFree, C: 0, Buf: 2}, {K: kFree, C: 0, Buf: 3},
+			{K: kFree, C: 0, Buf: 4}, {K: kFree, C: 0, Buf: 5}, {K: kFree, C: 0, Buf: 6}, {K: kFree, C: 0, Buf: 7}, {K: kFree, C: 0, Buf: 8}}},
+		{Name: "canon-remap-onto-unified-k4-64k", Log2Page: 16, GPUPages: []int{128, 128, 128, 128}, Ops: []op{
+			{K: kInit, C: 0}, {K: kInit, C: 1}, {K: kUnify, C: 1, Devs: []int{4, 2, 1, 3}}, // device 5, k=4
+			{K: kSelect, C: 1, Dev: 3},
+			{K: kAlloc, C: 1, Size: 3 * 65536}, {K: kAlloc, C: 0, Size: 4 * 65536}, {K: kAlloc, C: 1, Size: 5 * 65536},
+			{K: kAlloc, C: 0, Size: 9*65536 - 7}, {K: kAlloc, C: 1, Size: 13 * 65536}, {K: kAlloc, C: 0, Size: 8 * 65536},
+			{K: kRemap, C: 1, Buf: 0, Off: 0, Size: 3 * 65536, Dev: 5}, {K: kRemap, C: 0, Buf: 1, Off: 0, Size: 4 * 65536, Dev: 5},
+			{K: kRemap, C: 1, Buf: 2, Off: 0, Size: 5 * 65536, Dev: 5}, {K: kRemap, C: 0, Buf: 3, Off: 0, Size: 9 * 65536, Dev: 5},
+			{K: kRemap, C: 1, Buf: 4, Off: 0, Size: 13 * 65536, Dev: 5}, {K: kRemap, C: 0, Buf: 5, Off: 0, Size: 8 * 65536, Dev: 5},
+			{K: kRemap, C: 1, Buf: 4, Off: 6, Size: 65536, Dev: 5}, {K: kRemap, C: 1, Buf: 4, Off: 2, Size: 7 * 65536, Dev: 2},
+			{K: kSelect, C: 0, Dev: 5}, {K: kAlloc, C: 0, Size: 1}, {K: kAlloc, C: 0, Size: 3*65536 - 1}, {K: kAlloc, C: 0, Size: 4 * 65536},
+			{K: kAlloc, C: 0, Size: 5 * 65536}, {K: kAlloc, C: 0, Size: 8*65536 + 1}, {K: kAlloc, C: 0, Size: 8 * 65536}, // buffers 6..11
+			{K: kDist, C: 0, Buf: 10, Devs: []int{5, 5, 2}}, {K: kDist, C: 0, Buf: 3, Devs: []int{1, 5}}, {K: kDist, C: 1, Buf: 4, Devs: []int{5, 3, 5, 5}},
+			{K: kFree, C: 0, Buf: 6}, {K: kFree, C: 0, Buf: 7}, {K: kFree, C: 0, Buf: 8}, {K: kFree, C: 0, Buf: 9}, {K: kFree, C: 0, Buf: 10}, {K: kFree, C: 0, Buf: 11},
+			{K: kFree, C: 1, Buf: 4}, {K: kFree, C: 0, Buf: 3}, {K: kFree, C: 1, Buf: 0}, {K: kFree, C: 0, Buf: 1}, {K: kFree, C: 1, Buf: 2}, {K: kFree, C: 0, Buf: 5}}},
+		{Name: "canon-distribute-lists-with-unified-devices-and-repeats", Log2Page: 12, GPUPages: []int{128, 128, 128}, Ops: []op{
+			{K: kInit, C: 0}, {K: kUnify, C: 0, Devs: []int{2, 3}}, {K: kUnify, C: 0, Devs: []int{3, 1, 2}}, // devices 4 (k=2), 5 (k=3)
+			{K: kAlloc, C: 0, Size: 7 * P}, {K: kAlloc, C: 0, Size: 11*P + 1}, {K: kAlloc, C: 0, Size: 2 * P}, {K: kAlloc, C: 0, Size: 1},
+			{K: kDist, C: 0, Buf: 0, Devs: []int{4, 1}},          // 3 | 3+1
+			{K: kDist, C: 0, Buf: 0, Devs: []int{1, 4}},          // 3 | 3+1 (remainder page onto the unified device)
+			{K: kDist, C: 0, Buf: 1, Devs: []int{4, 4}},          // 6 | 6
+			{K: kDist, C: 0, Buf: 1, Devs: []int{5, 4, 5}},       // 4 | 4 | 4
+			{K: kDist, C: 0, Buf: 1, Devs: []int{2, 2, 3, 5}},    // 3 | 3 | 3 | 3
+			{K: kDist, C: 0, Buf: 0, Devs: []int{5, 5}},          // 3 | 3+1
+			{K: kDist, C: 0, Buf: 0, Devs: []int{1, 5, 4, 2, 5}}, // 1 each, remainder 2 on the last
+			{K: kDist, C: 0, Buf: 2, Devs: []int{4, 5, 1}},       // fewer pages than entries: all on the first
+			{K: kDist, C: 0, Buf: 3, Devs: []int{5, 4}},
+			{K: kDist, C: 0, Buf: 1, Devs: []int{5}},       // one entry: left in place
+			{K: kDist, C: 0, Buf: 1, Devs: []int{0, 4, 0}}, // the CPU is device 0
+			{K: kFree, C: 0, Buf: 0}, {K: kFree, C: 0, Buf: 1}, {K: kFree, C: 0, Buf: 2}, {K: kFree, C: 0, Buf: 3},
+			{K: kAlloc, C: 0, Size: 3 * P}}},
+		{Name: "canon-two-unified-devices-sharing-a-member", Log2Page: 13, GPUPages: []int{32, 32, 32, 32}, Ops: []op{
+			{K: kInit, C: 0}, {K: kInitPID, C: 1, From: 0}, {K: kInit, C: 2},
+			{K: kUnify, C: 0, Devs: []int{1, 2}}, {K: kUnify, C: 2, Devs: []int{2, 3, 4}}, {K: kUnify, C: 1, Devs: []int{4}}, // 5 (k=2), 6 (k=3), 7 (k=1)
+			{K: kSelect, C: 0, Dev: 5}, {K: kSelect, C: 1, Dev: 6}, {K: kSelect, C: 2, Dev: 7},
+			{K: kAlloc, C: 0, Size: 1}, {K: kAlloc, C: 1, Size: 8192}, {K: kAlloc, C: 2, Size: 8193},
+			{K: kAlloc, C: 0, Size: 2 * 8192}, {K: kAlloc, C: 1, Size: 2 * 8192}, {K: kAlloc, C: 0, Size: 3 * 8192}, {K: kAlloc, C: 1, Size: 3*8192 - 1},
+			{K: kAlloc, C: 0, Size: 5 * 8192}, {K: kAlloc, C: 1, Size: 7 * 8192}, {K: kAlloc, C: 1, Size: 4*8192 + 1}, {K: kAlloc, C: 2, Size: 3 * 8192},
+			{K: kRemap, C: 0, Buf: 7, Off: 0, Size: 5 * 8192, Dev: 6}, {K: kRemap, C: 1, Buf: 8, Off: 0, Size: 7 * 8192, Dev: 5},
+			{K: kRemap, C: 2, Buf: 10, Off: 1, Size: 2 * 8192, Dev: 6}, {K: kRemap, C: 1, Buf: 9, Off: 0, Size: 5 * 8192, Dev: 7},
+			{K: kAllocU, C: 2, Size: 4 * 8192}, {K: kRemap, C: 2, Buf: 11, Off: 0, Size: 3 * 8192, Dev: 5},
+			{K: kFree, C: 0, Buf: 7}, {K: kFree, C: 1, Buf: 8}, {K: kFree, C: 2, Buf: 10}, {K: kFree, C: 1, Buf: 9}, {K: kFree, C: 2, Buf: 11},
+			{K: kFree, C: 0, Buf: 0}, {K: kFree, C: 1, Buf: 1}, {K: kFree, C: 2, Buf: 2}, {K: kAlloc, C: 1, Size: 6 * 8192}}},
+		{Name: "canon-fill-unified-device-uneven-members", Log2Page: 12, GPUPages: []int{4, 9, 6}, Ops: append(append(append([]op{
+			{K: kInit, C: 0}, {K: kUnify, C: 0, Devs: []int{1, 2, 3}}, {K: kSelect, C: 0, Dev: 4}}, // 19 pages in total
+			rep(op{K: kAlloc, C: 0, Size: P}, 10)...),
+			op{K: kAlloc, C: 0, Size: 4 * P}, op{K: kAlloc, C: 0, Size: 5*P - 1}, // bufs 10, 11: the last GPUs with room serve them
+			op{K: kProbe, C: 0},
+			op{K: kFree, C: 0, Buf: 2}, op{K: kFree, C: 0, Buf: 10}, op{K: kFree, C: 0, Buf: 7},
+			op{K: kAlloc, C: 0, Size: 1}, op{K: kAlloc, C: 0, Size: 2 * P}, op{K: kAlloc, C: 0, Size: 3 * P},
+			op{K: kProbe, C: 0}),
+			op{K: kSelect, C: 0, Dev: 2}, op{K: kProbe, C: 0}, op{K: kSelect, C: 0, Dev: 1}, op{K: kProbe, C: 0})},
+		{Name: "canon-fill-unified-device-two-members-buddy", Buddy: true, Log2Page: 12, GPUPages: []int{4, 8}, Ops: append(append([]op{
+			{K: kInit, C: 0}, {K: kUnify, C: 0, Devs: []int{2, 1}}, {K: kSelect, C: 0, Dev: 3}},
+			rep(op{K: kAlloc, C: 0, Size: P}, 12)...),
+			op{K: kProbe, C: 0}, op{K: kFree, C: 0, Buf: 0}, op{K: kFree, C: 0, Buf: 5}, op{K: kFree, C: 0, Buf: 11},
+			op{K: kAlloc, C: 0, Size: P}, op{K: kAlloc, C: 0, Size: 2 * P}, op{K: kProbe, C: 0})},
+		{Name: "canon-fill-unified-device-two-members", Log2Page: 14, GPUPages: []int{5, 3, 7}, Ops: append(append([]op{
+			{K: kInit, C: 0}, {K: kUnify, C: 0, Devs: []int{3, 2}}, {K: kSelect, C: 0, Dev: 4}},
+			rep(op{K: kAlloc, C: 0, Size: 16384}, 6)...),
+			op{K: kAlloc, C: 0, Size: 4 * 16384}, op{K: kProbe, C: 0},
+			op{K: kFree, C: 0, Buf: 6}, op{K: kFree, C: 0, Buf: 1},
+			op{K: kAlloc, C: 0, Size: 3*16384 - 1}, op{K: kAlloc, C: 0, Size: 2 * 16384}, op{K: kProbe, C: 0},
+			op{K: kSelect, C: 0, Dev: 1}, op{K: kAlloc, C: 0, Size: 5 * 16384}, op{K: kProbe, C: 0})},
+		{Name: "canon-cpu-as-a-device", Log2Page: 12, GPUPages: []int{32, 32}, Ops: []op{
+			{K: kInit, C: 0}, {K: kSelect, C: 0, Dev: 0}, {K: kAlloc, C: 0, Size: 3 * P}, {K: kAlloc, C: 0, Size: 1},
+			{K: kSelect, C: 0, Dev: 2}, {K: kAlloc, C: 0, Size: 4 * P}, {K: kAlloc, C: 0, Size: P},
+			{K: kRemap, C: 0, Buf: 3, Off: 0, Size: P, Dev: 0}, {K: kFree, C: 0, Buf: 3},
+			{K: kRemap, C: 0, Buf: 0, Off: 1, Size: 2 * P, Dev: 1}, {K: kRemap, C: 0, Buf: 2, Off: 0, Size: 3 * P, Dev: 0},
+			{K: kRemap, C: 0, Buf: 0, Off: 0, Size: P, Dev: 0},
+			{K: kDist, C: 0, Buf: 2, Devs: []int{0, 1}}, {K: kDist, C: 0, Buf: 0, Devs: []int{2, 0, 0}},
+			{K: kFree, C: 0, Buf: 0}, {K: kFree, C: 0, Buf: 2}, {K: kFree, C: 0, Buf: 1},
+			{K: kSelect, C: 0, Dev: 0}, {K: kAlloc, C: 0, Size: 2 * P}}},
+		// one member GPU of a unified device is (almost) full, the device as a
+		// whole has plenty of room; the remaps name the unified device
+		{Name: "canon-remap-onto-unified-device-with-a-full-member", Log2Page: 12, GPUPages: []int{4, 32, 32}, Ops: []op{
+			{K: kInit, C: 0}, {K: kUnify, C: 0, Devs: []int{1, 2, 3}},
+			{K: kAlloc, C: 0, Size: 4 * P}, // GPU 1 is full now
+			{K: kSelect, C: 0, Dev: 2}, {K: kAlloc, C: 0, Size: 2 * P}, {K: kAlloc, C: 0, Size: 2 * P}, {K: kAlloc, C: 0, Size: 2 * P},
+			{K: kRemap, C: 0, Buf: 1, Off: 0, Size: 2 * P, Dev: 4, Tight: true},
+			{K: kRemap, C: 0, Buf: 2, Off: 0, Size: 2 * P, Dev: 4, Tight: true},
+			{K: kRemap, C: 0, Buf: 3, Off: 0, Size: 2 * P, Dev: 4, Tight: true}}},
+		{Name: "canon-buddy-unified-device", Buddy: true, Log2Page: 12, GPUPages: []int{16, 16, 32}, Ops: []op{
+			{K: kInit, C: 0}, {K: kUnify, C: 0, Devs: []int{2, 3}}, // device 4
+			{K: kAlloc, C: 0, Size: 3 * P}, {K: kAlloc, C: 0, Size: 2 * P}, {K: kAlloc, C: 0, Size: P}, {K: kAlloc, C: 0, Size: 5 * P},
+			{K: kRemap, C: 0, Buf: 0, Off: 0, Size: 3 * P, Dev: 4}, {K: kRemap, C: 0, Buf: 1, Off: 0, Size: 2 * P, Dev: 4},
+			{K: kRemap, C: 0, Buf: 2, Off: 0, Size: P, Dev: 4}, {K: kRemap, C: 0, Buf: 3, Off: 0, Size: 5 * P, Dev: 4},
+			{K: kSelect, C: 0, Dev: 4}, {K: kAlloc, C: 0, Size: 3 * P}, {K: kAlloc, C: 0, Size: P},
+			{K: kFree, C: 0, Buf: 0}, {K: kFree, C: 0, Buf: 3}, {K: kFree, C: 0, Buf: 4}, {K: kFree, C: 0, Buf: 1},
+			{K: kAlloc, C: 0, Size: 2 * P}, {K: kAlloc, C: 0, Size: P}, {K: kFree, C: 0, Buf: 2}, {K: kFree, C: 0, Buf: 5}}},
+		{Name: "canon-buddy-cpu-and-unified-select", Buddy: true, Log2Page: 12, GPUPages: []int{8, 8}, Ops: []op{
+			{K: kInit, C: 0}, {K: kUnify, C: 0, Devs: []int{1, 2}}, {K: kSelect, C: 0, Dev: 0}, {K: kAlloc, C: 0, Size: 3 * P},
+			{K: kSelect, C: 0, Dev: 3}, {K: kAlloc, C: 0, Size: 5 * P}, {K: kAlloc, C: 0, Size: 3 * P},
+			{K: kRemap, C: 0, Buf: 1, Off: 1, Size: 2 * P, Dev: 0}, {K: kRemap, C: 0, Buf: 0, Off: 0, Size: 3 * P, Dev: 3},
+			{K: kFree, C: 0, Buf: 1}, {K: kFree, C: 0, Buf: 0}, {K: kFree, C: 0, Buf: 2}, {K: kAlloc, C: 0, Size: P}}},
 		{Name: "canon-buddy-single-pages", Buddy: true, Log2Page: 12, GPUPages: []int{16}, Ops: append(append([]op{
 			{K: kInit, C: 0}}, rep(op{K: kAlloc, C: 0, Size: P}, 6)...),
 			op{K: kFree, C: 0, Buf: 0}, op{K: kFree, C: 0, Buf: 1}, op{K: kFree, C: 0, Buf: 4},
@@ -87,7 +208,13 @@ func runScenario(rec vlib.Recorder, sc *scenario) {
 	rec.Eval()
 	w := newWorld(rec, sc)
 	if sc.GenSeed == 0 {
-		for _, o := range sc.Ops {
+		for i, o := range sc.Ops {
+			if sc.Canon {
+				if why := w.precheck(o); why != "" {
+					rec.Inconclusive(fmt.Sprintf("canonical history %s step %d (%s) is not a valid within-capacity call by the monitor's own rules: %s", sc.Name, i, o.K, why))
+					break
+				}
+			}
 			if !w.exec(o) {
 				break
 			}
@@ -194,6 +321,7 @@ func main() {
 
 	var def, bud []*scenario
 	for _, sc := range canonical() {
+		sc.Canon = true
 		if sc.Buddy {
 			bud = append(bud, sc)
 		} else {
@@ -219,26 +347,40 @@ func main() {
 	vlib.Parallel(len(bud), 0, func(i int) { runScenario(c, bud[i]) })
 	driver.VerifUseBuddyAllocator(false)
 
+	minc := map[string]int64{
+		"op_alloc": 5000, "op_free": 1000, "op_remap": 300, "op_dist": 200, "op_allocu": 100, "op_unify": 50,
+		"op_probe": 100, "overallocation_refused": 100, "free_k_reallocate_k_episodes": 30,
+		"multi_page_buffers": 500, "page_lookups": 100000, "histories_buddy": 100, "histories_multi_process": 100,
+		"engine_cases": 10, "pages_recorded_under_a_unified_device_id": 2000,
+	}
+	for k, v := range coverageMinimums() {
+		minc[k] = v
+	}
 	c.Finish(vlib.FinishOpts{
-		Rule: "history = (page size 2^12..2^16, 1-4 GPUs of 16-256 pages, default or buddy allocator, 1-4 processes, " +
-			"sequence of Init/InitWithExistingPID/SelectGPU/CreateUnifiedGPU/AllocateMemory/AllocateUnifiedMemory/FreeMemory/Remap/Distribute " +
-			"and fill-the-device probes), generated from VERIF_SEED plus a fixed canonical battery; after every call every page of every " +
-			"buffer of every process is looked up in the real page table; non-trivial = distinct history in which a physical page " +
-			"returned by a FreeMemory was observed being handed out again by a later allocation (and all invariants were checked afterwards)",
+		Rule: "history = (page size 2^12..2^16, 1-4 GPUs of 4-256 pages, default or buddy allocator, 1-4 processes, up to 3 unified devices over 1-4 member GPUs " +
+			"(member lists may overlap), sequence of Init/InitWithExistingPID/SelectGPU/CreateUnifiedGPU/AllocateMemory/AllocateUnifiedMemory/FreeMemory/Remap/Distribute " +
+			"and fill-the-device probes; SelectGPU, Remap and every entry of a Distribute list name the CPU (device 0), an actual GPU or a unified device, Distribute lists " +
+			"have 1-5 entries with repetitions; page counts aimed at a unified device of k members are drawn from {1,k-1,k,k+1,2k-1,2k,2k+1,3k+1,random}), " +
+			"generated from VERIF_SEED plus a fixed canonical battery; after every call every page of every " +
+			"buffer of every process is looked up in the real page table (found, valid, aligned, physical page inside the memory of the recorded device - for a " +
+			"recorded unified device: inside one of its member GPUs and the unified device is the one the call named -, on a device the call named, physical pages " +
+			"pairwise distinct, not handed out while owned); non-trivial = distinct history in which a physical page " +
+			"returned by a FreeMemory was observed being handed out again by a later allocation (and all invariants were checked afterwards). " +
+			"Counters 'op|<operation>|<role>=<cpu|gpu|unified/k=n>|<page class>' form the coverage table of what was executed on the real driver " +
+			"('canon|...' = the part contributed by the seed-independent battery); their minimums make a run that never exercised a combination inconclusive",
 		Assumptions: []string{
 			"device memory ranges are known by construction: one reserved page, CPU 4 GiB, then each GPU's DRAMSize in registration order",
 			"histories stay within capacity by the monitor's own accounting, which treats pages replaced by Remap/Distribute as never returned (observed behaviour; not judged)",
-			"buffers are freed through the context that allocated them; Remap/Distribute ranges are page aligned; Remap targets are real GPUs",
+			"buffers are freed through the context that allocated them; Remap/Distribute ranges are page aligned",
+			"within capacity for ONE multi-page request (Remap, each Distribute share) onto a unified device = every member GPU could serve it alone (which member serves it is the implementation's choice); " +
+				"requests flagged 'tight' (the device has the room in total, a member has not) are issued separately and a panic there carries its own key",
+			"Distribute: entry i of the returned byte counts describes the i-th consecutive segment of the buffer, which must lie on the device entry i names; room for the whole buffer is demanded on every GPU reachable through the list",
+			"CreateUnifiedGPU member lists are distinct actual GPUs; the CPU is used as SelectGPU/Remap/Distribute target only (its 4 GiB are never filled)",
 			"buddy allocator: 4 KiB pages, power-of-two DRAM sizes, no Distribute; 'within capacity' = an ideally coalescing buddy system could serve the request",
 			"a history stops at its first violation (the shadow no longer describes the driver afterwards)",
 			"page-migration preparation (AllocatePageWithGivenVAddr via the MMU port) is not driven here",
 		},
 		MinNontrivial: 50,
-		MinCounters: map[string]int64{
-			"op_alloc": 5000, "op_free": 1000, "op_remap": 300, "op_dist": 200, "op_allocu": 100, "op_unify": 50,
-			"op_probe": 100, "overallocation_refused": 100, "free_k_reallocate_k_episodes": 30,
-			"multi_page_buffers": 500, "page_lookups": 100000, "histories_buddy": 100, "histories_multi_process": 100,
-			"engine_cases": 10,
-		},
+		MinCounters:   minc,
 	})
 }
